@@ -7,10 +7,12 @@ name=$1; wt=$2; shift 2
 out=/verif/seeded/$name; mkdir -p $out
 cp $wt/seed_patch.diff $out/patch.diff; cp $wt/seed_demo.py $out/demo.py; cp $wt/seed_meta.json $out/meta_agent.json
 cd $wt
+# (no git stash: the stash is shared by all worktrees of a repository)
+git checkout -q -- pysyncobj && git apply seed_patch.diff || { echo "seed_patch.diff does not apply to a clean worktree"; exit 2; }
 ( timeout 300 /venv/bin/python seed_demo.py > $out/demo_with_change.txt 2>&1 ); with=$?
-git stash -q -- pysyncobj
+git apply -R seed_patch.diff
 ( timeout 300 /venv/bin/python seed_demo.py > $out/demo_without_change.txt 2>&1 ); without=$?
-git stash pop -q
+git apply seed_patch.diff
 echo "demo exit with change: $with, without: $without"
 cd /verif
 if ! git -C /repo diff --quiet; then echo "/repo is dirty, abort"; exit 2; fi
